@@ -381,7 +381,9 @@ theorem fire_data_inv (s : St) (t : Nat) (r : Root) (hc : Compatible s.cfg) (hp 
   have hC0 : ∀ p < s.cfg.peers, ChanInv { s with now := max s.now t } p := fun p hp' => chanInv_advance hc (hC p hp') hle
   have frame : ∀ s', SameBind { s with now := max s.now t } s' → WakeInv s' ∧ ∀ p < s.cfg.peers, ChanInv s' p :=
     fun s' h => ⟨wakeInv_same h hW0, fun p hp' => chanInv_same h p (hC0 p hp')⟩
-  rcases roots_inv s t r hm with ⟨hr, hw⟩ | ⟨hr, x, hx, hd⟩ | ⟨hr, hw⟩ | ⟨hr, x, hx, hd⟩ | ⟨hr, hw⟩ | ⟨q, x, hr, hx, hd⟩
+  rcases roots_inv s t r hm with ⟨hr, hw⟩ | ⟨hr, x, hx, hd⟩ | ⟨hr, hw⟩ | ⟨hr, x, hx, hd⟩ | ⟨hr, hw⟩ | ⟨q, x, hr, hx, hd⟩ | ⟨_, x, hx, _⟩
+  rotate_right
+  · exfalso; have := hA.2.2.1; rw [hx] at this; cases this
   · subst hr; exact frame _ ⟨rfl, rfl, rfl, rfl, rfl, rfl⟩
   · subst hr
     have : fire { s with now := max s.now t } t .allocTx = fireAllocTx { s with now := max s.now t } x := by simp [fire, hx]
@@ -441,7 +443,7 @@ theorem advanceTo_data_inv (c : Cfg) (hc : Compatible c) (hp : PatsOK c) (target
   | zero =>
     intro s acc h1 _ h2
     obtain ⟨hA, hW, hC⟩ := h2
-    exact ⟨h1, allocInv_same ⟨rfl, rfl, rfl, rfl, rfl, rfl, rfl⟩ hA, wakeInv_same ⟨rfl, rfl, rfl, rfl, rfl, rfl⟩ hW,
+    exact ⟨h1, allocInv_same ⟨rfl, rfl, rfl, rfl, rfl, rfl, rfl, rfl⟩ hA, wakeInv_same ⟨rfl, rfl, rfl, rfl, rfl, rfl⟩ hW,
       fun p hp' => chanInv_same ⟨rfl, rfl, rfl, rfl, rfl, rfl⟩ p (hC p hp')⟩
   | succ n ih =>
     intro s acc h1 hnt h2
@@ -464,7 +466,9 @@ theorem advanceTo_data_inv (c : Cfg) (hc : Compatible c) (hp : PatsOK c) (target
           have : WakeInv { s with now := max s.now t } := wakeInv_advance hW0 hle
           -- read the clock off the allocation invariant's frame: every branch of `fire` keeps `now`
           have hk : (fire { s with now := max s.now t } t r).1.now = max s.now t := by
-            rcases roots_inv s t r hm with ⟨hr, hw⟩ | ⟨hr, x, hx, hd⟩ | ⟨hr, hw⟩ | ⟨hr, x, hx, hd⟩ | ⟨hr, hw⟩ | ⟨q, x, hr, hx, hd⟩
+            rcases roots_inv s t r hm with ⟨hr, hw⟩ | ⟨hr, x, hx, hd⟩ | ⟨hr, hw⟩ | ⟨hr, x, hx, hd⟩ | ⟨hr, hw⟩ | ⟨q, x, hr, hx, hd⟩ | ⟨_, x, hx, _⟩
+            rotate_right
+            · exfalso; have := hA0.2.2.1; rw [hx] at this; cases this
             · subst hr; rfl
             · subst hr
               have : fire { s with now := max s.now t } t .allocTx = fireAllocTx { s with now := max s.now t } x := by simp [fire, hx]
@@ -491,10 +495,10 @@ theorem advanceTo_data_inv (c : Cfg) (hc : Compatible c) (hp : PatsOK c) (target
         obtain ⟨hA, hW, hC⟩ := h2
         have hlt' : target < t := by omega
         refine ⟨?_, ?_, ?_⟩
-        · obtain ⟨i1, i2, e', he', _, h⟩ := hA
+        · obtain ⟨i1, i2, i0, e', he', _, h⟩ := hA
           rw [he] at he'; cases he'
           have : t ≤ m.1 := hle m hmem
-          exact ⟨i1, i2, e, he, by show target < e; omega, h⟩
+          exact ⟨i1, i2, i0, e, he, by show target < e; omega, h⟩
         · obtain ⟨w, hw, h3, h4⟩ := hW
           have : t ≤ w := hle _ (bind_root_mem s w hw)
           exact ⟨w, hw, by show target ≤ w; omega, by show w ≤ target + s.cfg.bindP; omega⟩
@@ -527,17 +531,18 @@ theorem step_data_inv (c : Cfg) (hc : Compatible c) (hp : PatsOK c) (s : St) (op
     obtain ⟨hA, hW, hC⟩ := h2
     simp only [step]
     split
-    · exact ⟨h1, allocInv_same ⟨rfl, rfl, rfl, rfl, rfl, rfl, rfl⟩ hA, wakeInv_same ⟨rfl, rfl, rfl, rfl, rfl, rfl⟩ hW,
+    · exact ⟨h1, allocInv_same ⟨rfl, rfl, rfl, rfl, rfl, rfl, rfl, rfl⟩ hA, wakeInv_same ⟨rfl, rfl, rfl, rfl, rfl, rfl⟩ hW,
         fun q hq => chanInv_same ⟨rfl, rfl, rfl, rfl, rfl, rfl⟩ q (hC q hq)⟩
     · exact ⟨h1, hA, hW, hC⟩
   | pw p =>
     obtain ⟨hA, hW, hC⟩ := h2
     simp only [step]
     split
-    · exact ⟨h1, allocInv_same ⟨rfl, rfl, rfl, rfl, rfl, rfl, rfl⟩ hA, wakeInv_same ⟨rfl, rfl, rfl, rfl, rfl, rfl⟩ hW,
+    · exact ⟨h1, allocInv_same ⟨rfl, rfl, rfl, rfl, rfl, rfl, rfl, rfl⟩ hA, wakeInv_same ⟨rfl, rfl, rfl, rfl, rfl, rfl⟩ hW,
         fun q hq => chanInv_same ⟨rfl, rfl, rfl, rfl, rfl, rfl⟩ q (hC q hq)⟩
     · exact ⟨h1, hA, hW, hC⟩
   | close => exact absurd hop (by simp [noClose])
+  | count => exact ⟨h1, h2⟩
 
 theorem run_data_inv (c : Cfg) (hc : Compatible c) (hp : PatsOK c) : ∀ (ops : List Op) (s : St), (∀ op ∈ ops, noClose op) →
     s.cfg = c → DataInv s → (run s ops).1.cfg = c ∧ DataInv (run s ops).1 := by
@@ -553,7 +558,7 @@ theorem run_data_inv (c : Cfg) (hc : Compatible c) (hp : PatsOK c) : ∀ (ops : 
 /-- a probe in either direction is delivered in any state that satisfies the invariants -/
 theorem probes_delivered_of_inv (s : St) (p : Nat) (hp : p < s.cfg.peers) (hi : DataInv s) :
     Out.dp s.now p ∈ (step s (.wr p)).2 ∧ Out.dc s.now p ∈ (step s (.pw p)).2 := by
-  obtain ⟨⟨_, _, e, he, hnow, _⟩, _, hC⟩ := hi
+  obtain ⟨⟨_, _, _, e, he, hnow, _⟩, _, hC⟩ := hi
   obtain ⟨ce, hce, hlt, _⟩ := hC p hp
   have hal : allocLive s s.now = true := by simp [allocLive, he, hnow]
   have hcl : chanLive s p s.now = true := by
